@@ -63,12 +63,13 @@ var kindPass = map[string]bool{
 	"trap-expected-panic":              false,
 }
 
-var kindWeights = []string{
-	"silent-pass", "silent-pass", "assert-pass", "output-match", "output-match", "output-match",
-	"output-wrong-line", "output-extra-line", "output-missing-line",
-	"assert-fail", "assert-fail-msg", "panic-unexpected", "trap-unexpected",
-	"panic-expected-match", "panic-expected-match", "panic-expected-match-after-print", "panic-expected-longer-message",
-	"panic-expected-wrong", "panic-expected-absent", "trap-expected-panic",
+// two-stage draw (rapid favours small indices): a group, then a kind inside it
+var kindGroups = [][]string{
+	{"panic-expected-match", "panic-expected-match-after-print", "panic-expected-longer-message", "panic-expected-wrong", "panic-expected-absent", "trap-expected-panic", "panic-expected-match"},
+	{"output-match", "output-wrong-line", "output-extra-line", "output-missing-line", "output-match"},
+	{"silent-pass", "assert-pass"},
+	{"silent-pass", "output-match"},
+	{"panic-unexpected", "trap-unexpected", "assert-fail", "assert-fail-msg"},
 }
 
 // excluded lists kinds switched off because they hit a listed known finding.
@@ -201,12 +202,12 @@ var nameParts = []string{"Add", "Sub", "Parse", "Run", "Abc", "Xyz", "IO", "Edge
 func genPackage(t *rapid.T, s *core.Stats) kase {
 	sy := syn{wz: rapid.Bool().Draw(t, "wz")}
 	pkg := rapid.SampledFrom([]string{"m1", "myapp", "demo/calc"}).Draw(t, "pkgpath")
-	nf := rapid.IntRange(1, 6).Draw(t, "nfuncs")
+	nf := rapid.IntRange(1, 5).Draw(t, "nfuncs")
 	var funcs []fnModel
 	var chunks []string
 	seen := map[string]bool{}
 	for i := 0; i < nf; i++ {
-		kind := rapid.SampledFrom(kindWeights).Draw(t, "kind")
+		kind := rapid.SampledFrom(rapid.SampledFrom(kindGroups).Draw(t, "group")).Draw(t, "kind")
 		if key, ex := excluded(kind); ex {
 			s.Counter("excluded_by_known/"+key, 1)
 			kind = "silent-pass"
@@ -235,7 +236,7 @@ func genPackage(t *rapid.T, s *core.Stats) kase {
 	}
 	// -run pattern (filepath.Match glob over function names)
 	run := ""
-	switch rapid.IntRange(0, 5).Draw(t, "runsel") {
+	switch rapid.IntRange(0, 8).Draw(t, "runsel") {
 	case 0:
 		run = funcs[rapid.IntRange(0, len(funcs)-1).Draw(t, "runidx")].Name
 	case 1:
@@ -424,7 +425,7 @@ func clip(s string, n int) string {
 
 func TestVerdicts(t *testing.T) {
 	s := core.NewStats(prop, "Verdicts")
-	s.Rule("rapid: module directory (wa.mod with a drawn pkgpath, src/main.{wa,wz}, one test file named *_test or test_*) in the English or the Chinese syntax with 1..6 test/example functions (TestX / ExampleX / 测X功能 / X示例); every function body is a drawn nest of blocks/ifs/loops/switches/closures/helper calls/methods/defers with printing statements and one site that fixes its kind: silent pass, passing assert, `// Output:` (or 注: 输出:) matching the modelled output, wrong / extra / missing expected line, failing assert (with or without message), panic or trap without expectation, `// Output(panic):` with the same / a longer / another message, no panic at all, a trap instead, or a panic after some output; an optional -run glob selects a subset; oracle: the model computes from the kinds of the SELECTED functions whether all honour their contract: then `wa test` must print `ok <pkgpath>` and exit 0, otherwise it must print FAIL and exit non-zero; non-trivial = the selected functions mix passing and failing ones, or one of them declares an expected panic")
+	s.Rule("rapid: module directory (wa.mod with a drawn pkgpath, src/main.{wa,wz}, one test file named *_test or test_*) in the English or the Chinese syntax with 1..5 test/example functions (TestX / ExampleX / 测X功能 / X示例); every function body is a drawn nest of blocks/ifs/loops/switches/closures/helper calls/methods/defers with printing statements and one site that fixes its kind: silent pass, passing assert, `// Output:` (or 注: 输出:) matching the modelled output, wrong / extra / missing expected line, failing assert (with or without message), panic or trap without expectation, `// Output(panic):` with the same / a longer / another message, no panic at all, a trap instead, or a panic after some output; an optional -run glob selects a subset; oracle: the model computes from the kinds of the SELECTED functions whether all honour their contract: then `wa test` must print `ok <pkgpath>` and exit 0, otherwise it must print FAIL and exit non-zero; non-trivial = the selected functions mix passing and failing ones, or one of them declares an expected panic")
 	s.Assume("a generated package that fails to compile is counted as rejected (generator defect), never as a violation; expected output is non-empty and has no leading/trailing blanks, so the runner's whitespace trimming is not exercised")
 	var rejected, unusable int64
 	s.Check(t, func(t *rapid.T, c *core.Case) {
